@@ -12,7 +12,7 @@ import TonVerif.Drv.Cell
 import TonVerif.Model.VmStack
 
 namespace TonVerif.Drv
-open TonVerif TonVerif.Model TonVerif.Model.Vm
+open TonVerif TonVerif.Model TonVerif.Model.Vm TonVerif.Spec.Vm
 
 namespace VmStack
 
